@@ -238,6 +238,16 @@ func init() {
 				parse([]byte(v[:pos]), 0, "s")
 			}
 		}
+		// (2b) digits and separators outside ASCII
+		if d.Shard == 1%d.NShards {
+			for _, w := range []string{"2024-02-29", "20240229"} {
+				for _, cf := range confusables {
+					for pos := 0; pos < len(w); pos++ {
+						parse([]byte(w[:pos]+cf+w[pos+1:]), 0, "s")
+					}
+				}
+			}
+		}
 		// (3) configuration sweep over a fixed corpus and seeded random texts
 		corpus := [][]byte{{}, []byte("2"), []byte("2024"), []byte("20240229"), []byte("2024-02-29"), []byte("2024-02-30"),
 			[]byte("20230229"), []byte("02024-02-29"), []byte("002024-02-29"), []byte("0020240229"), []byte("123456789-12-31"),
